@@ -511,6 +511,7 @@ def pipeline_execute(obl, safe=False):
         def end(rid):
             s = T.s(rid)
             s["fin"] += 1
+            s["fin_seq"] = S["fin_n"] = S.get("fin_n", 0) + 1
             for x in list(in_service):
                 if x[0] == rid:
                     in_service.remove(x)
@@ -649,7 +650,30 @@ def pipeline_execute(obl, safe=False):
                         return res
                 # every request draws its own scripted service time in start order
                 lat = scripted_latency([ticks(x) for x in (svc * 8)[:40]], ticks(svc[0]), seed=1)
-                comp = Srv("srv", concurrency=cm, service_time=lat, queue_policy=rec, downstream=sink)
+                down = sink
+                if case.get("chain"):
+                    # a second stage (documented QueuedResource pattern, two slots) between the server and the sink
+                    st2 = {"in": 0, "recv": 0}
+
+                    class Stage2(QueuedResource):
+                        def has_capacity(self):
+                            return st2["in"] < 2
+
+                        def handle_queued_event(self, event):
+                            st2["in"] += 1
+                            st2["recv"] += 1
+                            if st2["in"] > 2:
+                                T.labels.add("stage2-over-limit")     # same driver defect, judged in stage 1 / qd
+                            try:
+                                yield ticks(1 + event.context["rid"] % 2)
+                            finally:
+                                st2["in"] -= 1
+                            return [Event(time=self.now, event_type="Done", target=sink, context=event.context)]
+                    down = Stage2("stage2")
+                    ents.append(down)
+                    S["chain"] = (down, st2)
+                    T.labels.add("chained")
+                comp = Srv("srv", concurrency=cm, service_time=lat, queue_policy=rec, downstream=down)
                 S["rej_counter"] = lambda: comp.stats.requests_rejected
                 cur_limit = lambda: comp.concurrency         # noqa: E731
             else:
@@ -699,8 +723,8 @@ def pipeline_execute(obl, safe=False):
                 old = comp.concurrency
                 comp.concurrency_model.set_limit(event.context["n"])
                 T.labels.add("limit-changed")
-                if comp.concurrency > old:
-                    S["prev_limit"] = old
+                # lowest limit in force since the queue was last empty: a slot above it is free only thanks to set_limit()
+                S["low"] = min(x for x in (S.get("low"), old, comp.concurrency) if x is not None)
                 return None
         ctl = Ctl("ctl")
         ents.append(ctl)
@@ -740,6 +764,8 @@ def pipeline_execute(obl, safe=False):
             if S["rej_counter"]() != len(b["rejected"]):
                 bad("counter-mismatch/rejected", f"end of instant {tk(t_ns)}: rejected counter={S['rej_counter']()} trace {b['rejected']}")
             for rid in b["done"]:
+                if S["chain"] and not final:
+                    continue            # still travelling through the second stage
                 if T.st[rid]["sink"] != 1:
                     bad("lost/completed-but-not-at-sink" if T.st[rid]["sink"] == 0 else "duplicated/completed-twice",
                         f"request {rid} finished service, sink saw it {T.st[rid]['sink']}x")
@@ -749,10 +775,12 @@ def pipeline_execute(obl, safe=False):
                     bad("duplicated/at-sink-while-not-finished", f"request {rid}")
             used = sum(x[1] for x in in_service)
             lim = cur_limit()
+            if not b["waiting"]:
+                S["low"] = None
             if b["waiting"] and not final:
                 wmax = max(T.st[q].get("w", 1) for q in b["waiting"]) if S["weights"] else 1
                 if used + wmax <= lim:
-                    if S.get("prev_limit") is not None and used + wmax > S["prev_limit"]:
+                    if S.get("low") is not None and used + wmax > S["low"]:
                         clause = "stranded/after-limit-raised"      # the slot is free only because set_limit() raised the limit
                     else:
                         clause = "stranded/single-slot" if lim == 1 else "stranded/free-slot-not-polled"
@@ -771,11 +799,16 @@ def pipeline_execute(obl, safe=False):
             b = quiescent(now(), final=True)
             if b["waiting"] or b["service"]:
                 bad("stranded/left-at-end", f"run ended at {tk(now())} with waiting {b['waiting']} in service {b['service']}")
+            if S["chain"]:
+                st2c, st2 = S["chain"]
+                if st2c.depth or st2["in"] or st2c.stats_dropped or st2["recv"] != len(b["done"]):
+                    bad("lost/in-second-stage", f"stage 2 received {st2['recv']} of {len(b['done'])} completed requests; "
+                        f"depth={st2c.depth} in service={st2['in']} dropped={st2c.stats_dropped} at the end")
             # order the policy defines, from the recorded push/pop sequence is checked by the policy obligation;
             # here: FIFO + single slot => completion order = admission order
             # (meaningless once two requests were in service together: that is the over-limit clause's business)
             if pol == "fifo" and limit == 1 and conc == "fixed" and kind != "reneging" and "over-limit" not in T.labels:
-                done = sorted((T.st[q]["sink_seq"], q) for q in b["done"] if T.st[q]["sink"] == 1)
+                done = sorted((T.st[q]["fin_seq"], q) for q in b["done"])
                 seq = [q for _, q in done]
                 adm = [q for q in T.push_order if q in set(seq)]
                 if seq != adm:
@@ -855,7 +888,8 @@ def industrial_execute(case):
                 T.s(rid)["recv"] += 1
                 T.s(rid)["start"] += 1
                 S["in"].append(rid)
-                if len(S["in"]) > self.current_capacity and not S.get("cap_lowered"):
+                lowered_now = S.get("cap_prev") is not None and self.current_capacity < S["cap_prev"]   # shift ended this instant
+                if len(S["in"]) > self.current_capacity and not lowered_now:
                     s = T.s(rid)
                     bad("over-limit/" + ("polled-without-capacity-answer" if s.get("unchecked") else "capacity-answer-stale-at-dequeue"),
                         f"at {tk(self.now.nanoseconds)} in service {S['in']} capacity {self.current_capacity}")
